@@ -537,6 +537,12 @@ def fam_c19(R, n_random):
         add(enum([], ['#[regex(%s)] A,' % rust_str(p)]), 'reject', None, 'look-behind at token start')
     for p in ['(?=a)b', 'a(?!b)', '(a)\\1', '(?<=a)b', '\\p{Nope}', '(?P<n>a)(?P=n)']:
         add(enum([], ['#[regex(%s)] A,' % rust_str(p)]), 'reject', None, 'unsupported regex feature')
+    # Unicode word-boundary assertions (every kind, after / between / in a subpattern / in a skip): the DFA cannot implement them
+    for look in ['\\b', '\\B', '\\b{start}', '\\b{end}', '\\b{start-half}', '\\b{end-half}', '\\<', '\\>']:
+        for shape in ['[a-z]+%s', 'a%sb', 'a%s-', 'x|a%s', '(a%s)+z']:
+            add(enum([], ['#[regex(%s)] A,' % rust_str(shape % look)]), 'reject', None, 'unsupported regex feature (Unicode word boundary)')
+        add(enum(['#[logos(subpattern wb = %s)]' % rust_str('a' + look)], ['#[regex("(?&wb)c?")] A,']), 'reject', None, 'unsupported regex feature (Unicode word boundary in a subpattern)')
+        add(enum(['#[logos(skip(%s))]' % rust_str('q+' + look)], ['#[token("b")] B,']), 'reject', None, 'unsupported regex feature (Unicode word boundary in a skip)')
     add(enum([], ['#[regex("a{1001}{1001}{1001}")] A,']), 'reject', None, 'huge repetition (resource exhaustion)')
     for p in ['(?&nope)', 'a(?&b)']:
         add(enum([], ['#[regex(%s)] A,' % rust_str(p)]), 'reject', 'undef_subpattern')
